@@ -233,11 +233,11 @@ def gen_over_limit(rng, tier):
 
 def gen(rng, tier):
     quick = tier == "quick"
-    for _ in range(700 if quick else 12000):
+    for _ in range(450 if quick else 12000):
         yield gen_timeline(rng, rng.choice([6, 10, 16, 24] if quick else [6, 10, 16, 24, 40, 60]))
-    for _ in range(250 if quick else 4000):
+    for _ in range(160 if quick else 4000):
         yield gen_equal_due(rng)
-    for _ in range(6 if quick else 60):
+    for _ in range(5 if quick else 60):
         yield gen_over_limit(rng, tier)
 
 
